@@ -1341,3 +1341,71 @@ Section Alphabet.
     injection H as <- _. reflexivity.
   Qed.
 End Alphabet.
+
+(** * Alphabet: the GAS distribution never exceeds 3/4 of the balance *)
+
+Section AlphabetGas.
+  Context (stdacc : bytes -> option bytes).
+
+  Definition tr_sum (trs : list transfer) : Z := fold_right (fun t acc => tr_amount t + acc) 0 trs.
+
+  Lemma tr_sum_app a b : tr_sum (a ++ b) = tr_sum a + tr_sum b.
+  Proof. induction a as [|t a IH]; cbn; [reflexivity|]. unfold tr_sum in *. rewrite IH. lia. Qed.
+
+  Lemma pay_nodes_sum cur keys simple notary till trs :
+    pay_nodes stdacc cur keys simple notary till = Halt trs ->
+    tr_sum trs = Z.of_nat (length keys) * (simple + notary).
+  Proof.
+    revert trs. induction keys as [|k keys IH]; intros trs H; cbn [pay_nodes] in H.
+    - injection H as <-. cbn. lia.
+    - destruct (stdacc k) as [addr|]; [|discriminate].
+      apply obind_halt in H as (r & Hr & H). injection H as <-.
+      cbn [tr_sum fold_right tr_amount length]. fold (tr_sum r). rewrite (IH _ Hr). lia.
+  Qed.
+
+  Lemma node_keys_length nodes ks : node_keys nodes = Halt ks -> length ks = length nodes.
+  Proof.
+    revert ks. induction nodes as [|n nodes IH]; intros ks H; cbn [node_keys] in H.
+    - injection H as <-. reflexivity.
+    - apply obind_halt in H as (b & _ & H). apply obind_halt in H as (blob & _ & H).
+      apply obind_halt in H as (u & _ & H). apply obind_halt in H as (r & Hr & H).
+      injection H as <-. cbn. rewrite (IH _ Hr). reflexivity.
+  Qed.
+
+  Lemma alphabet_switch_bounded e args s s' trs :
+    alphabet_switch stdacc e args s = Halt (s', trs) -> 0 <= e_gas e ->
+    0 <= tr_sum trs <= e_gas e * 3 / 4.
+  Proof.
+    unfold alphabet_switch. intros H Hg.
+    assert (Hcur : 0 <= e_gas e * 3 / 4) by (apply Z.div_pos; lia).
+    apply obind_halt in H as (nm & _ & H). apply obind_halt in H as (u & _ & H).
+    destruct (sget k_notary s) as [nv|].
+    - apply obind_halt in H as (b & _ & H). destruct b.
+      + apply obind_halt in H as (pa & _ & H). apply obind_halt in H as (proxy0 & _ & H).
+        apply obind_halt in H as (proxy & _ & H). apply obind_halt in H as (r & _ & H).
+        apply obind_halt in H as (u1 & _ & H). apply obind_halt in H as (na & _ & H).
+        apply obind_halt in H as (nm0 & _ & H). apply obind_halt in H as (netmap & _ & H).
+        apply obind_halt in H as (nodes & _ & H). apply obind_halt in H as (ir & _ & H).
+        apply obind_halt in H as (u2 & _ & H). apply obind_halt in H as (u3 & Hn & H).
+        apply obind_halt in H as (t_ir & Hir & H). apply obind_halt in H as (sk & Hsk & H).
+        apply obind_halt in H as (t_sn & Hsn & H). apply obind_halt in H as (u4 & _ & H).
+        apply obind_halt in H as (s2 & _ & H). apply obind_halt in H as (u5 & _ & H).
+        injection H as _ <-.
+        apply pay_nodes_sum in Hir, Hsn. apply node_keys_length in Hsk. apply oassert_halt in Hn.
+        set (current := e_gas e * 3 / 4) in *.
+        set (n := Z.of_nat (length nodes) + Z.of_nat (length ir)) in *.
+        assert (Hnpos : 0 < n) by (unfold n in *; destruct (Z.eqb_spec (Z.of_nat (length nodes) + Z.of_nat (length ir)) 0); [discriminate|lia]).
+        set (rest := current - current / 2) in *.
+        set (per_node := rest / n) in *.
+        assert (Hhalf : 0 <= current / 2 <= current).
+        { split; [apply Z.div_pos; lia|]. apply Z.div_le_upper_bound; lia. }
+        assert (Hrest : 0 <= rest) by (unfold rest; lia).
+        assert (Hpn : 0 <= per_node /\ n * per_node <= rest).
+        { split; [apply Z.div_pos; lia|]. unfold per_node. apply Z.mul_div_le. lia. }
+        cbn [tr_sum fold_right tr_amount]. fold (tr_sum (t_ir ++ t_sn)). rewrite tr_sum_app, Hir, Hsn, Hsk.
+        match goal with |- context [?a - ?b + ?b] => replace (a - b + b) with a by lia end.
+        fold per_node. nia.
+      + injection H as _ <-. cbn. lia.
+    - apply obind_halt in H as (? & _ & H). injection H as _ <-. cbn. lia.
+  Qed.
+End AlphabetGas.
